@@ -193,7 +193,8 @@ impl W<'_, '_> {
                 0 => self.s.push(' '),
                 1 => self.s.push('\t'),
                 _ => {
-                    let body = *self.ch.choose(&["", " c ", "*", "é", " a/b ", "* *", "//"]);
+                    // (bodies beginning or ending with a slash or a star: "/*/ .. /*/", "/** .. **/")
+                    let body = *self.ch.choose(&["", " c ", "*", "é", " a/b ", "* *", "//", "/", "/ x /", "/ 'y' /", "/*", "* x *"]);
                     self.s.push_str(&format!("/*{body}*/"));
                     self.feat("inline-block-comment");
                 }
@@ -227,7 +228,7 @@ impl W<'_, '_> {
                     self.feat("line-comment");
                 }
                 _ => {
-                    let body = *self.ch.choose(&[" c ", "", "*", " a\n b ", " x\n// y\n", " é\n/ z ", "**", " ; | : "]);
+                    let body = *self.ch.choose(&[" c ", "", "*", " a\n b ", " x\n// y\n", " é\n/ z ", "**", " ; | : ", "/", "/ A: 'x' ; /", "/ %token Q /", "/\n/"]);
                     if body.contains("\n/") {
                         self.feat("block-comment-line-starting-with-slash");
                     }
